@@ -13,7 +13,7 @@ PATCH_NOTES = """The Lean model (Model/Serializer.lean) follows the code with th
  D10 deserialize_problem_as_url: non-matching URL -> None if allow_failure else ValueError (no assert)
  D11 HexInt.deserialize: the digits after '-' / '+' must satisfy _is_hex
  D12 YajilinClue: '??' <-> '0.', numbers 16..255 as direction+5 and two hex digits in both directions, validation
- D19 Rooms: boards with height == 0 or width == 0 raise ValueError (instead of AssertionError from Grid)"""
+ D20 Rooms: boards with height == 0 or width == 0 raise ValueError (instead of AssertionError from Grid)"""
 
 URL_ALPHABET = "0123456789abcdefghijklmnopqrstuvwxyz-+._/?:"
 
